@@ -6,7 +6,7 @@ import Octo.Model.Strings
   existing models (`Octo.Model.NumFuncs` of C13, `Octo.Model.Strings` of C12, `Value.Compare`/`Equal` of C09).
   Only the correspondence driver uses them: the C08 theorems are parametric in the bodies and need just the result kinds
   extracted from the Go source.  A body that is not modelled (float arithmetic, `math.*`, regexps, the clock, `parse_time`,
-  `time_from_unix`, non-ASCII `upper`/`lower`) answers `.opaque`.
+  `time_from_unix`, non-ASCII `upper`/`lower`) answers `.unmodelled`.
 -/
 namespace Octo.Tc
 open Octo
@@ -17,8 +17,8 @@ def ofOutcome : Num.Outcome → Res
   | .val v => .val v
   | .err => .err
   | .panic => .panic
-  | .opaque _ => .opaque
-  | .illTyped => .opaque
+  | .opaque _ => .unmodelled
+  | .illTyped => .unmodelled
 
 def ofStrOut : Str.Out (List UInt8) → Res
   | .ok s => .val (.str s)
@@ -53,21 +53,21 @@ def bodyOf (name : Name) (idx : Nat) (args : List Value) : Res :=
   else if name = nm "[]" then ofOutcome (Num.fnIndex idx args)
   else if name = nm "in" then ofOutcome (Num.fnIn idx args)
   else if name = nm "not in" then ofOutcome (Num.fnNotIn idx args)
-  else if name = nm "upper" then (match args with | [.str s] => (match Str.upper s with | some r => .val (.str r) | none => .opaque) | _ => .opaque)
-  else if name = nm "lower" then (match args with | [.str s] => (match Str.lower s with | some r => .val (.str r) | none => .opaque) | _ => .opaque)
-  else if name = nm "reverse" then (match args with | [.str s] => .val (.str (Str.reverse s)) | _ => .opaque)
+  else if name = nm "upper" then (match args with | [.str s] => (match Str.upper s with | some r => .val (.str r) | none => .unmodelled) | _ => .unmodelled)
+  else if name = nm "lower" then (match args with | [.str s] => (match Str.lower s with | some r => .val (.str r) | none => .unmodelled) | _ => .unmodelled)
+  else if name = nm "reverse" then (match args with | [.str s] => .val (.str (Str.reverse s)) | _ => .unmodelled)
   else if name = nm "substr" then
     (match idx, args with
      | 0, [.str s, .int a] => ofStrOut (Str.substr2 s a)
      | 1, [.str s, .int a, .int l] => ofStrOut (Str.substr3 s a l)
-     | _, _ => .opaque)
-  else if name = nm "replace" then (match args with | [.str s, .str o, .str n] => .val (.str (Str.replace s o n)) | _ => .opaque)
+     | _, _ => .unmodelled)
+  else if name = nm "replace" then (match args with | [.str s, .str o, .str n] => .val (.str (Str.replace s o n)) | _ => .unmodelled)
   else if name = nm "position" then
     (match args with
      | [.str s, .str sub] => (match Str.position s sub with | some i => .val (.int i) | none => .val .null)
-     | _ => .opaque)
+     | _ => .unmodelled)
   else if name = nm "panic" then .err
-  else .opaque
+  else .unmodelled
 
 /-! ### aggregates: `Trigger()` after `Add(false, v)` for every input `v` (non-NULL, in order) -/
 
@@ -86,7 +86,7 @@ def insertSorted (p : Value × Nat) : List (Value × Nat) → List (Value × Nat
 def sumInts (xs : List Value) (mk : Int → Value) (get : Value → Option Int) : Res :=
   match xs.mapM get with
   | some is => .val (mk (is.foldl Num.addI64 0))
-  | none => .opaque
+  | none => .unmodelled
 
 def getInt : Value → Option Int | .int i => some i | _ => none
 def getDur : Value → Option Int | .dur i => some i | _ => none
@@ -94,15 +94,15 @@ def getDur : Value → Option Int | .dur i => some i | _ => none
 def avgInts (xs : List Value) (mk : Int → Value) (get : Value → Option Int) : Res :=
   match xs.mapM get with
   | some is => if is.isEmpty then .panic else .val (mk (Num.quoI64 (is.foldl Num.addI64 0) is.length))
-  | none => .opaque
+  | none => .unmodelled
 
 /-- the plain (non-distinct) aggregates, by base name and overload index -/
 def aggBase (base : Name) (idx : Nat) (xs : List Value) : Res :=
   if base = nm "count" then .val (.int xs.length)
   else if base = nm "sum" then
-    (if idx = 0 then sumInts xs .int getInt else if idx = 2 then sumInts xs .dur getDur else .opaque)
+    (if idx = 0 then sumInts xs .int getInt else if idx = 2 then sumInts xs .dur getDur else .unmodelled)
   else if base = nm "avg" then
-    (if idx = 0 then avgInts xs .int getInt else if idx = 2 then avgInts xs .dur getDur else .opaque)
+    (if idx = 0 then avgInts xs .int getInt else if idx = 2 then avgInts xs .dur getDur else .unmodelled)
   else if base = nm "max" then
     (match xs with
      | [] => .panic
@@ -113,7 +113,7 @@ def aggBase (base : Name) (idx : Nat) (xs : List Value) : Res :=
      | x :: rest => .val (rest.foldl (fun best y => if cmp y best < 0 then y else best) x))
   else if base = nm "array_agg" then
     .val (.list (((classesOf xs).foldl (fun acc p => insertSorted p acc) []).flatMap fun p => List.replicate p.2 p.1))
-  else .opaque
+  else .unmodelled
 
 /-- `aggregates.Aggregates[name].Descriptors[idx]`: `<base>_distinct` feeds the first member of every `Compare` class -/
 def aggBodyOf (name : Name) (idx : Nat) (xs : List Value) : Res :=
